@@ -127,4 +127,356 @@ theorem poolValue_noOI {W U : Nat} {m : Market} (h : NoOI m) {pr : Prices} {kind
                                   subst hlv hsv hiv htot
                                   omega
 
+/-- `cap_pnl`: never more than the pnl, untouched when non-positive, and at least the smaller of
+the pnl and the cap `⌊poolValue·factor/U⌋`. -/
+theorem capPnl_spec {W U : Nat} {pnl c : Int} {pv f : Nat} (h : capPnl W U pnl pv f = some c) :
+    c ≤ pnl ∧ (pnl ≤ 0 → c = pnl) ∧ (pnl ≤ c ∨ ((pv * f / U : Nat) : Int) ≤ c) := by
+  unfold capPnl at h
+  split at h
+  · rename_i hpos
+    split at h
+    · cases h
+    · rename_i mp hmp
+      unfold applyFactor at hmp
+      obtain ⟨_, e, _⟩ := (C01.mulDiv_spec _ _ _ _ _).1 hmp
+      split at h
+      · cases h
+      · rename_i smp hsmp
+        have hsmp := toSigned_eq hsmp
+        subst e
+        split at h <;> cases h
+        · exact ⟨by omega, fun h0 => by omega, Or.inr (by omega)⟩
+        · exact ⟨Int.le_refl _, fun _ => rfl, Or.inl (Int.le_refl _)⟩
+  · cases h
+    exact ⟨Int.le_refl _, fun _ => rfl, Or.inl (Int.le_refl _)⟩
+
+/-- the market pnl valued to MAXIMISE is at least the pnl valued to minimise (index `min ≤ max`). -/
+theorem marketPnl_min_le_max {W : Nat} {m : Market} {idx : Price} {b : Bool} {a c : Int}
+    (hi : idx.min ≤ idx.max) (ha : marketPnl W m idx b false = some a) (hc : marketPnl W m idx b true = some c) :
+    a ≤ c := by
+  unfold marketPnl at ha hc
+  split at ha
+  · cases ha
+  · rename_i oi hoi
+    rw [hoi] at hc
+    simp only at hc
+    split at ha
+    · cases ha
+    · rename_i oit hoit
+      rw [hoit] at hc
+      simp only at hc
+      split at ha
+      · rename_i hz
+        simp only [hz] at hc
+        cases ha; simp at hc; omega
+      · rename_i hz
+        simp only [hz, if_false] at hc
+        split at ha
+        · cases ha
+        · rename_i v1 hv1
+          split at ha
+          · cases ha
+          · rename_i sv1 hsv1
+            split at ha
+            · cases ha
+            · rename_i so1 hso1
+              split at hc
+              · cases hc
+              · rename_i v2 hv2
+                split at hc
+                · cases hc
+                · rename_i sv2 hsv2
+                  split at hc
+                  · cases hc
+                  · rename_i so2 hso2
+                    have e1 := checkedMul_eq hv1
+                    have e2 := checkedMul_eq hv2
+                    have := toSigned_eq hsv1; have := toSigned_eq hsv2
+                    have := toSigned_eq hso1; have := toSigned_eq hso2
+                    cases b
+                    · simp only [Bool.false_eq_true, if_false] at ha hc
+                      have ha := toI_eq ha; have hc := toI_eq hc
+                      simp only [Price.pickForPnl] at e1 e2
+                      simp at e1 e2
+                      have hm := Nat.mul_le_mul_left oit hi
+                      subst e1 e2
+                      have : ((oit * idx.min : Nat) : Int) ≤ ((oit * idx.max : Nat) : Int) := by exact_mod_cast hm
+                      omega
+                    · simp only [if_true] at ha hc
+                      have ha := toI_eq ha; have hc := toI_eq hc
+                      simp only [Price.pickForPnl] at e1 e2
+                      simp at e1 e2
+                      have hm := Nat.mul_le_mul_left oit hi
+                      subst e1 e2
+                      have : ((oit * idx.min : Nat) : Int) ≤ ((oit * idx.max : Nat) : Int) := by exact_mod_cast hm
+                      omega
+
+/-- with a fresh borrowing clock (no time since the last `update_borrowing`, as after the on-chain
+`pre_execute`) the pending borrowing fees do not depend on the borrowing factor per second. -/
+theorem tpbf_fresh {W U : Nat} {m : Market} (hf : passedInSeconds m.now m.clockBorrowing = 0) (b : Bool) (bf bf' : Nat) :
+    totalPendingBorrowingFees W U m b bf = totalPendingBorrowingFees W U m b bf' := by
+  unfold totalPendingBorrowingFees nextCumulativeBorrowingFactor
+  rw [hf]
+  have : 0 < 2 ^ W := Nat.two_pow_pos W
+  simp [toU, this, checkedMul]
+
+/-- a side that passed the reserve and max-pnl-factor validations has its (maximised) pnl below the
+cap up to the rounding of the factor: `pnl ≤ ⌊pv·f/U⌋ + ⌊pv/U⌋ + 1`, `pv` the side's pool value at
+the MIN price. (The reserve validation is what excludes an empty side with profitable positions:
+`div_to_factor_signed` returns 0 for a zero pool value.) -/
+theorem pnl_le_cap_of_validated {W U : Nat} {m : Market} {pr : Prices} {kind : PnlFactorKind} {b : Bool}
+    {pnl : Int} {pv : Nat}
+    (hr : validateReserve W U m pr b = .ok ()) (hp : validatePnlFactor W U m pr kind b = .ok ())
+    (hpnl : marketPnl W m pr.index b true = some pnl)
+    (hpv : poolValueWithoutPnlOneSide W m pr b false = some pv) :
+    pnl ≤ ((pv * m.cfg.pnlFactor kind / U : Nat) : Int) + ((pv / U : Nat) : Int) + 1 := by
+  by_cases hpos : pnl ≤ 0
+  · have h1 : (0 : Int) ≤ ((pv * m.cfg.pnlFactor kind / U : Nat) : Int) := Int.natCast_nonneg _
+    have h2 : (0 : Int) ≤ ((pv / U : Nat) : Int) := Int.natCast_nonneg _
+    omega
+  have hpos : pnl > 0 := by omega
+  unfold validatePnlFactor pnlFactorWithPoolValue at hp
+  simp only [Bool.not_true] at hp
+  rw [hpv, hpnl] at hp
+  simp only at hp
+  split at hp
+  · cases hp
+  · rename_i fac pv' hfac
+    split at hfac
+    · cases hfac
+    · rename_i fac' hdf
+      cases hfac
+      split at hp
+      · cases hp
+      · rename_i hnex
+        by_cases hz : pv = 0
+        · -- empty side: the reserve validation forces a zero reserved value, hence no positive pnl
+          exfalso
+          subst hz
+          unfold validateReserve at hr
+          rw [hpv] at hr
+          simp only at hr
+          split at hr
+          · cases hr
+          · rename_i mr hmr
+            unfold applyFactor at hmr
+            obtain ⟨_, e, _⟩ := (C01.mulDiv_spec _ _ _ _ _).1 hmr
+            simp at e
+            subst e
+            split at hr
+            · cases hr
+            · rename_i rv hrv
+              split at hr
+              · cases hr
+              · rename_i hle
+                have hrv0 : rv = 0 := by omega
+                subst hrv0
+                unfold marketPnl at hpnl
+                unfold reservedValue at hrv
+                cases b
+                · simp only [Bool.false_eq_true, if_false] at hrv hpnl
+                  rw [hrv] at hpnl
+                  simp only at hpnl
+                  split at hpnl
+                  · cases hpnl
+                  · split at hpnl
+                    · cases hpnl; omega
+                    · split at hpnl
+                      · cases hpnl
+                      · split at hpnl
+                        · cases hpnl
+                        · rename_i sv hsv
+                          split at hpnl
+                          · cases hpnl
+                          · rename_i so hso
+                            have := toSigned_eq hsv; have := toSigned_eq hso
+                            have := toI_eq hpnl
+                            omega
+                · simp only [if_true] at hrv hpnl
+                  split at hrv
+                  · cases hrv
+                  · rename_i oit hoit
+                    rw [hoit] at hpnl
+                    have hm := checkedMul_eq hrv
+                    split at hpnl
+                    · cases hpnl
+                    · simp only at hpnl
+                      split at hpnl
+                      · cases hpnl; omega
+                      · split at hpnl
+                        · cases hpnl
+                        · rename_i v hv
+                          have hv := checkedMul_eq hv
+                          simp [Price.pickForPnl] at hv
+                          split at hpnl
+                          · cases hpnl
+                          · rename_i sv hsv
+                            split at hpnl
+                            · cases hpnl
+                            · rename_i so hso
+                              have := toSigned_eq hsv; have := toSigned_eq hso
+                              have := toI_eq hpnl
+                              have : v = 0 := by rw [hv]; exact hm.symm
+                              omega
+        · unfold divToFactorSigned at hdf
+          simp only [hz, if_false] at hdf
+          unfold mulDivSigned at hdf
+          split at hdf
+          · cases hdf
+          · rename_i q hq
+            obtain ⟨_, eq, _⟩ := (C01.mulDiv_spec _ _ _ _ _).1 hq
+            split at hdf
+            · cases hdf
+            · rename_i sq hsq
+              have hsq := toSigned_eq hsq
+              simp only [hpos, if_true, Option.some.injEq] at hdf
+              rw [← hdf] at hnex
+              -- q = U * |pnl| / pv, not exceeded: q = 0 or q ≤ f
+              have hna : ((pnl.natAbs : Nat) : Int) = pnl := by omega
+              generalize hn : pnl.natAbs = n at *
+              generalize hf : m.cfg.pnlFactor kind = f at *
+              have hq_le : q ≤ f := by
+                unfold pnlExceeded at hnex
+                by_cases h0 : q = 0
+                · omega
+                · have hsp : (sq : Int) > 0 := by omega
+                  have hab : sq.natAbs = q := by omega
+                  simp only [hsp, decide_true, Bool.true_and, decide_eq_true_eq, hab] at hnex
+                  omega
+              -- U ≠ 0 from the reserve validation
+              have hU : U ≠ 0 := by
+                unfold validateReserve at hr
+                rw [hpv] at hr
+                simp only at hr
+                split at hr
+                · cases hr
+                · rename_i mr hmr
+                  unfold applyFactor at hmr
+                  exact ((C01.mulDiv_spec _ _ _ _ _).1 hmr).1
+              have hUp : 0 < U := Nat.pos_of_ne_zero hU
+              have hpvp : 0 < pv := Nat.pos_of_ne_zero hz
+              -- U * n < pv * (q + 1) ≤ pv * f + pv
+              have hlt : U * n < pv * (U * n / pv + 1) := Nat.lt_mul_div_succ _ hpvp
+              rw [← eq] at hlt
+              have hle2 : pv * (q + 1) ≤ pv * (f + 1) := Nat.mul_le_mul_left _ (by omega)
+              have hX : n * U < pv * f + pv := by
+                rw [Nat.mul_comm n U]; rw [Nat.mul_add, Nat.mul_one, Nat.mul_add, Nat.mul_one] at hle2
+                rw [Nat.mul_add, Nat.mul_one] at hlt; omega
+              have h1 : n ≤ (pv * f + pv) / U := by
+                rw [Nat.le_div_iff_mul_le hUp]; omega
+              have ha : pv * f < U * (pv * f / U + 1) := Nat.lt_mul_div_succ _ hUp
+              have hb : pv < U * (pv / U + 1) := Nat.lt_mul_div_succ _ hUp
+              have h2 : (pv * f + pv) / U ≤ pv * f / U + pv / U + 1 := by
+                have : (pv * f + pv) / U < pv * f / U + pv / U + 2 := by
+                  rw [Nat.div_lt_iff_lt_mul hUp]
+                  rw [Nat.mul_add, Nat.mul_one] at ha hb
+                  rw [Nat.add_mul, Nat.add_mul, Nat.mul_comm (pv * f / U) U, Nat.mul_comm (pv / U) U]
+                  omega
+                omega
+              have : n ≤ pv * f / U + pv / U + 1 := Nat.le_trans h1 h2
+              rw [← hna]
+              exact_mod_cast this
+
+/-! ### general decomposition (any open interest) -/
+
+/-- the parts `pool_value` is assembled from. -/
+structure PVParts (W U : Nat) (m : Market) (pr : Prices) (kind : PnlFactorKind) (mx : Bool) (pin : PerpIn)
+    (v : Int) : Prop where
+  parts : ∃ lv sv fl fs pL pS cL cS d ni : Int, ∃ lvN svN flN fsN niN dN : Nat,
+    lv = lvN ∧ sv = svN ∧ fl = flN ∧ fs = fsN ∧ ni = niN ∧ d = dN ∧
+    poolValueWithoutPnlOneSide W m pr true mx = some lvN ∧
+    poolValueWithoutPnlOneSide W m pr false mx = some svN ∧
+    totalPendingBorrowingFees W U m true pin.bfpsL = some flN ∧
+    totalPendingBorrowingFees W U m false pin.bfpsS = some fsN ∧
+    m.cfg.borrowingReceiverFactor ≤ U ∧
+    marketPnl W m pr.index true (!mx) = some pL ∧
+    marketPnl W m pr.index false (!mx) = some pS ∧
+    capPnl W U pL lvN (m.cfg.pnlFactor kind) = some cL ∧
+    capPnl W U pS svN (m.cfg.pnlFactor kind) = some cS ∧
+    m.pendingDistribution W U (passedInSeconds m.now m.clockImpactDist) = some (dN, niN) ∧
+    v = lv + sv + (((flN + fsN) * (U - m.cfg.borrowingReceiverFactor) / U : Nat) : Int) - (cL + cS)
+          - ((niN * pr.index.pick (!mx) : Nat) : Int)
+
+theorem poolValue_parts {W U : Nat} {m : Market} {pr : Prices} {kind : PnlFactorKind}
+    {mx : Bool} {pin : PerpIn} {v : Int} (hv : poolValue W U m pr kind mx pin = some v) :
+    PVParts W U m pr kind mx pin v := by
+  unfold poolValue at hv
+  split at hv
+  · cases hv
+  · rename_i lv hlv
+    split at hv
+    · cases hv
+    · rename_i sv hsv
+      split at hv
+      · cases hv
+      · rename_i tot htot
+        split at hv
+        · cases hv
+        · rename_i pv0 hpv0
+          split at hv
+          · cases hv
+          · rename_i fl hfl
+            split at hv
+            · cases hv
+            · rename_i fs hfs
+              split at hv
+              · cases hv
+              · rename_i tf htf
+                have htf := checkedAdd_eq htf
+                split at hv
+                · cases hv
+                · rename_i pf hpf
+                  obtain ⟨hrecv, hpf⟩ := checkedSub_eq hpf
+                  split at hv
+                  · cases hv
+                  · rename_i tfp htfp
+                    unfold applyFactor at htfp
+                    obtain ⟨_, e, _⟩ := (C01.mulDiv_spec _ _ _ _ _).1 htfp
+                    split at hv
+                    · cases hv
+                    · rename_i stfp hstfp
+                      have hstfp := toSigned_eq hstfp
+                      split at hv
+                      · cases hv
+                      · rename_i pv1 hpv1
+                        have hpv1 := toI_eq hpv1
+                        split at hv
+                        · cases hv
+                        · rename_i lp0 hlp0
+                          split at hv
+                          · cases hv
+                          · rename_i lp hlp
+                            split at hv
+                            · cases hv
+                            · rename_i sp0 hsp0
+                              split at hv
+                              · cases hv
+                              · rename_i sp hsp
+                                split at hv
+                                · cases hv
+                                · rename_i net hnet
+                                  have hnet := toI_eq hnet
+                                  split at hv
+                                  · cases hv
+                                  · rename_i pv2 hpv2
+                                    have hpv2 := toI_eq hpv2
+                                    split at hv
+                                    · cases hv
+                                    · rename_i dd ni hpd
+                                      split at hv
+                                      · cases hv
+                                      · rename_i iv hiv
+                                        have hiv := checkedMul_eq hiv
+                                        split at hv
+                                        · cases hv
+                                        · rename_i siv hsiv
+                                          have hsiv := toSigned_eq hsiv
+                                          have hv := toI_eq hv
+                                          have hpv0 := toSigned_eq hpv0
+                                          have htot := checkedAdd_eq htot
+                                          refine ⟨⟨lv, sv, fl, fs, lp0, sp0, lp, sp, dd, ni, lv, sv, fl, fs, ni, dd,
+                                            rfl, rfl, rfl, rfl, rfl, rfl, hlv, hsv, hfl, hfs, hrecv, hlp0, hsp0, hlp, hsp, hpd, ?_⟩⟩
+                                          subst htf hpf e hiv htot
+                                          omega
+
 end Gmx.Lem
